@@ -418,6 +418,62 @@ theorem C16_slicex_extended_set_frame {d d' : List Int} {sl : Slc} {vs : List In
         subst hidx'
         exact foldl_set_other _ _ k fun p hp hpk => hk (hpk ▸ (List.of_mem_zip hp).1)
 
+/-- **… and writes the items, in the order of the slice, to the selected positions** (which are distinct): the `j`-th
+    item goes to the `j`-th position the slice selects — for a negative step that is from the back — and reading the
+    slice back gives exactly what was assigned.  Together with `C16_slicex_extended_set_frame` this determines the list
+    after the assignment item by item, independently of how `setSliceX` computes it (so the listener of the replica
+    theorems, which applies a `replace` carrying an extended slice by the same function, is pinned too). -/
+theorem C16_slicex_extended_set_values {d d' : List Int} {sl : Slc} {vs : List Int} {idx : List Nat}
+    (hc : sl.c.getD 1 ≠ 1) (h : setSliceX d sl vs = some d') (hi : sl.indices d.length = some idx) :
+    idx.Nodup ∧ vs.length = idx.length ∧ (∀ j (hj : j < idx.length), d'.getD idx[j] 0 = vs.getD j 0) ∧
+    getSliceX d' sl = some vs := by
+  have hnd := Slc.indices_nodup hi
+  have hr := Slc.indices_in_range hi
+  unfold setSliceX at h
+  cases ha : sl.adjust d.length with
+  | none => simp [ha] at h
+  | some t =>
+    obtain ⟨start, stop, step⟩ := t
+    obtain ⟨_, hst, _, _⟩ := Slc.adjust_bounds ha
+    simp only [ha, hi] at h
+    rw [if_neg (by rw [hst]; exact hc)] at h
+    split at h
+    · cases h
+    · rename_i hl
+      have hl' : vs.length = idx.length := by simpa using hl
+      injection h with h
+      subst h
+      have hm := foldl_set_zip_get idx vs d hl' hnd hr
+      refine ⟨hnd, hl', fun j hj => ?_, ?_⟩
+      · have e := congrArg (fun l => l.getD j 0) hm
+        simpa [List.getD, hj] using e
+      · unfold getSliceX
+        rw [foldl_set_length, hi]
+        exact congrArg some hm
+
+/-- **`del lst[a:b:c]` erases exactly the selected positions**: what remains is the items at the other positions, in
+    their order, and the list gets shorter by the number of positions selected (they are distinct and exist). -/
+theorem C16_slicex_del_erases_selected {d d' : List Int} {sl : Slc} {idx : List Nat}
+    (h : delSliceX d sl = some d') (hi : sl.indices d.length = some idx) :
+    d' = ((List.range d.length).filter fun k => !idx.contains k).map (fun k => d.getD k 0) ∧
+    d'.length + idx.length = d.length := by
+  unfold delSliceX at h
+  rw [hi] at h
+  injection h with h
+  have e := zipIdx_filter_map (fun k => !idx.contains k) d 0
+  simp only [Nat.sub_zero, ← List.range_eq_range'] at e
+  simp only [e] at h
+  subst h
+  refine ⟨rfl, ?_⟩
+  rw [List.length_map]
+  exact length_filter_not_contains (Slc.indices_nodup hi) (Slc.indices_in_range hi)
+
+/-- non-vacuity: a negative step writes from the back (`d[::-2] = [7, 8, 9]`), so an implementation that wrote the
+    items in the opposite order is excluded by `C16_slicex_extended_set_values`; `del d[::-2]` -/
+example : setSliceX [0, 1, 2, 3, 4] ⟨none, none, some (-2)⟩ [7, 8, 9] = some [9, 1, 8, 3, 7] ∧
+    (⟨none, none, some (-2)⟩ : Slc).indices 5 = some [4, 2, 0] ∧
+    delSliceX [0, 1, 2, 3, 4] ⟨none, none, some (-2)⟩ = some [1, 3] := by decide
+
 /-- non-vacuity / what Python does: `d[::2] = [7, 8, 9]`, `d[::-1]` selects everything backwards, `del d[1::2]`, a
     wrong number of items and step 0 are rejected -/
 example : setSliceX [0, 1, 2, 3, 4] ⟨none, none, some 2⟩ [7, 8, 9] = some [7, 1, 8, 3, 9] := by decide
@@ -474,8 +530,7 @@ theorem C16_extend_failing_source (n : Nat) (d vs : List Int) (k : Nat) :
 
 /-- **On the machine** (any state, any handlers): `extend` / `+=` from such an iterable is `extend` of the items it
     yielded before it raised (state and deliveries; for `+=` no `change` follows, the assignment is not reached); if it
-    does not raise, it is the plain `extend` / `+=`.  So every theorem about histories above covers histories
-    containing such calls. -/
+    does not raise, it is the plain `extend` / `+=` (`C16_failing_source_histories` lifts this to histories). -/
 theorem C16_failing_source_is_extend_of_consumed (progs : Nat → List Act) (s : St) (iadd : Bool) (n : Nat)
     (vs : List Int) (k : Nat) :
     stepSrcR progs s iadd n vs k =
@@ -494,6 +549,58 @@ theorem C16_failing_source_is_extend_of_consumed (progs : Nat → List Act) (s :
     · simp [h, hk, stepR, Op.listName, hl, listOp, mExtend, e]
     · have ht : vs.take k = vs := List.take_of_length_le (by omega)
       cases iadd <;> simp [h, hk, ht, stepR, Op.listName, hl, listOp, mExtend, e]
+
+/-- the operation of `Op` with the same effect: `extend` of the items the iterable yielded before it raised -/
+def OpS.asOp : OpS → Op
+  | .op o => o
+  | .src iadd n vs k =>
+    if k < vs.length then .lextend n (vs.take k) else if iadd then .liadd n vs else .lextend n vs
+
+/-- **Histories with failing iterables** (∀ states, ∀ handler programs, ∀ histories of `Op`s and of `extend(src)` /
+    `+= src` calls whose iterable raises anywhere): the state reached and everything every handler was called with are
+    those of the history in which each such call is replaced by `extend` of the items its iterable yielded before it
+    raised (`OpS.asOp`) — so the theorems about histories (registry, deliveries, replicas) hold for these histories with
+    `ops.map OpS.asOp` for `ops` (out of which calls the exception comes: `C16_failing_source_is_extend_of_consumed`,
+    third component, call by call). -/
+theorem C16_failing_source_histories (progs : Nat → List Act) (s : St) (ops : List OpS) :
+    (runS progs s ops).1 = (runR progs s (ops.map OpS.asOp)).1 ∧
+    (runS progs s ops).2.1 = (runR progs s (ops.map OpS.asOp)).2 := by
+  induction ops generalizing s with
+  | nil => exact ⟨rfl, rfl⟩
+  | cons o ops ih =>
+    have hstep : (stepS progs s o).1 = (stepR progs s o.asOp).1 ∧ (stepS progs s o).2.1 = (stepR progs s o.asOp).2 := by
+      cases o with
+      | op o => exact ⟨rfl, rfl⟩
+      | src iadd n vs k =>
+        simp only [stepS, OpS.asOp, C16_failing_source_is_extend_of_consumed]
+        split <;> exact ⟨rfl, rfl⟩
+    obtain ⟨i1, i2⟩ := ih (stepS progs s o).1
+    simp only [runS, List.map_cons, runR]
+    rw [← hstep.1, ← hstep.2]
+    exact ⟨i1, by rw [i2]⟩
+
+/-- **A listener keeps its replica through failing iterables**: the listener of `C16_listener_replica_all_histories`,
+    in a history that also contains `extend(src)` / `+= src` calls whose iterable raises part-way, still has exactly
+    the real list — the items that arrived before the exception included. -/
+theorem C16_listener_replica_failing_sources (s : St) (ops : List OpS) (n h : Nat)
+    (hobs : ∀ v, .assign n v ∉ ops.map OpS.asOp)
+    (hsub : subscribedThroughout n h s (ops.map OpS.asOp) = true) :
+    replay ((s.lists n).getD []) (deliveriesTo h n (runS (fun _ => []) s ops).2.1) =
+      some (((runS (fun _ => []) s ops).1.lists n).getD []) := by
+  obtain ⟨h1, h2⟩ := C16_failing_source_histories (fun _ => []) s ops
+  rw [h1, h2, runR_passive (fun _ => rfl)]
+  exact C16_listener_replica_all_histories s _ n h hobs hsub
+
+/-- non-vacuity: handler 7 subscribed with `All()`; `extend` from an iterable that breaks after 2 of 3 items, an
+    `append`, `+=` from one that breaks at once and from one that does not: the exception comes out of the first and the
+    third call, and the replica is the list -/
+def exSrcOps : List OpS :=
+  [.op (.lassign 1 [1]), .src false 1 [5, 6, 7] 2, .op (.lappend 1 8), .src true 1 [9] 0, .src true 1 [4] 1]
+
+example : (runS (fun _ => []) exListenerSt exSrcOps).2.2 = [false, true, false, true, false] ∧
+    subscribedThroughout 1 7 exListenerSt (exSrcOps.map OpS.asOp) = true ∧
+    replay [] (deliveriesTo 7 1 (runS (fun _ => []) exListenerSt exSrcOps).2.1) = some [1, 5, 6, 8, 4] ∧
+    (runS (fun _ => []) exListenerSt exSrcOps).1.lists 1 = some [1, 5, 6, 8, 4] := by decide
 
 /-- non-vacuity: the iterable breaks after two of four items — two items arrive, two `append`s, the exception comes out -/
 example : mExtendSrc 1 [9] [5, 6, 7, 8] 2 [] =
@@ -583,5 +690,33 @@ example : (runR exProgs (init exDecls) [.observe .all .all 3, .observe .all .all
 
 /-- non-vacuity of `Act.keeps` in `C16_reentrant_untouched_called_once_per_subscription` -/
 example : (Act.observe (.one 0) .all 2).keeps (fun _ => true) 7 0 .change := Act.keeps_observe _ _ _ _ _ _ _
+
+/-- non-vacuity of `C16_reentrant_untouched_called_once_per_subscription` with handlers that do make calls and a count
+    above 1: handler 2 is subscribed twice to `change` of the Observable 0, between handler 5 (which subscribes 9 when
+    called), handler 6 (which unsubscribes 9) and handler 8 (which clears the ObservableList 1); every call of every
+    subscriber keeps 2 (the hypothesis `hk`), and 2 is called twice -/
+def exProgs2 : Nat → List Act
+  | 5 => [.observe (.one 0) .all 9]
+  | 6 => [.unobserve (.one 0) (.one .change) 9]
+  | 8 => [.clear (.one 1)]
+  | _ => []
+
+def exReg2 : Reg Nat :=
+  (run (init exDecls) [.observe (.one 0) .all 5, .observe (.one 0) .all 2, .observe (.one 0) .all 6,
+    .observe .all (.one .change) 2, .observe (.one 0) .all 8]).1.reg
+
+example : exReg2.subs 0 .change = [5, 2, 6, 2, 8] ∧
+    (exReg2.deliverR exProgs2 (fun _ => true) 0 .change).2 = [5, 2, 6, 2, 8] ∧
+    (exReg2.deliverR exProgs2 (fun _ => true) 0 .change).2.count 2 = 2 := by decide
+
+example : ∀ g ∈ exReg2.subs 0 .change, ∀ a ∈ exProgs2 g, a.keeps (fun _ => true) 2 0 .change := by
+  have hs : exReg2.subs 0 .change = [5, 2, 6, 2, 8] := by decide
+  rw [hs]
+  intro g hg a ha
+  simp only [List.mem_cons, List.not_mem_nil, or_false] at hg
+  rcases hg with rfl | rfl | rfl | rfl | rfl <;> simp only [exProgs2, List.mem_cons, List.not_mem_nil, or_false] at ha
+  · subst ha; exact Act.keeps_observe _ _ _ _ _ _ _
+  · subst ha; exact Act.keeps_unobserve_other _ _ _ _ _ (by decide) rfl
+  · subst ha; exact Act.keeps_clear_other _ _ _ _ (by decide)
 
 end Mesa.Signals
